@@ -6,8 +6,9 @@
 # Writes my_demo_with.txt / my_demo_without.txt / my_suite.txt into /tmp/seed/out/<id>.
 export GOFLAGS=-mod=mod GOPROXY=off GOSUMDB=off GOTOOLCHAIN=local
 id=$1
-wt=/tmp/seed/$id
-out=/tmp/seed/out/$id
+base=${SEED_BASE:-/tmp/seed}
+wt=$base/$id
+out=$base/out/$id
 set -u
 cd "$wt" || exit 2
 # normalise: worktree = HEAD + patch.diff exactly
